@@ -201,7 +201,8 @@ TraceNext == \/ TrReset \/ TrUpdate \/ TrSnapshot \/ TrRead50 \/ TrFind \/ TrMar
 TraceSpec == TraceInit /\ [][TraceNext]_<<vars, tvars>>
 
 Report == (l = Len(Trace) + 1) =>
-            PrintT(<<"RESULT", l - 1, ntraces, viol, vkind, drift, dkind>>)
+            PrintT(<<"RESULT", ToJson([lines |-> l - 1, ntraces |-> ntraces, viol |-> viol, vkind |-> vkind,
+                                       drift |-> drift, dkind |-> dkind])>>)
 \* all lines consumed: one state per line plus the initial state
 TraceAccepted == TLCGet("stats").diameter - 1 = Len(Trace)
 ===============================================================================
